@@ -1,7 +1,7 @@
 #!/bin/bash
 # seedverifyall.sh [ids…] — re-confirm stored seeded changes against the current /repo HEAD (sequentially, scratch worktree each)
 cd /verif
-ids=${@:-$(ls seeded)}
+ids=${@:-$(ls seeded | grep -- "-m")}
 for id in $ids; do
   pkg=$(grep -m1 '^package ' seeded/$id/demo_test.go | awk '{print $2}')
   case $pkg in
